@@ -371,6 +371,9 @@ class Replayer:
     def files(self, nsname, mode, cut):
         """-> {rel path: (bytes, size) | 'dir'} for one image"""
         ns = self.ns if nsname == "ns" else self.dns
+        # the CAS subtree is always what a kill at this point leaves (not claimed for power loss)
+        ns = {p: n for p, n in ns.items() if not p.startswith("cacache")}
+        ns.update({p: n for p, n in self.ns.items() if p.startswith("cacache")})
         out = {}
         for p, n in ns.items():
             if n == "dir":
